@@ -263,6 +263,19 @@ def _exchange(ctx, version, methods, kinds, deep):
     # ---- request as seen by the handler
     want_body = req_payload if req_body in ("bytes", "stream") else \
         (b'{"k": "v"}' if req_body == "json" else (b"a=b+c&d=%C3%A9" if req_body == "form" else b""))
+    if seen and req_body in ("json", "form"):
+        # compare what the body says, not how this client version happens to spell it
+        import json as _json
+        from urllib.parse import parse_qs
+
+        got_b = bytes(seen[0][3])
+        try:
+            same = (_json.loads(got_b) == {"k": "v"}) if req_body == "json" else \
+                (parse_qs(got_b.decode("ascii"), keep_blank_values=True, encoding="utf-8") == {"a": ["b c"], "d": ["\u00e9"]})
+        except Exception:  # noqa: BLE001
+            same = False
+        if same:
+            want_body = got_b
     if not seen or seen[0] != (method, "/p1?q=1", "m1", want_body):
         return fail("request-altered-in-transit")
     if seen_cookies[0] != ("cv" if send_cookie else None):
@@ -274,6 +287,14 @@ def _exchange(ctx, version, methods, kinds, deep):
         want_resp_body = b'{"tag": "' + want_resp_body + b'"}' 
     if r1[1] != status or r1[2] != "r1":
         return fail("response-status-or-headers-altered")
+    if kind == "json" and not bodyless:
+        import json as _json
+
+        try:
+            if _json.loads(r1[3]) == _json.loads(want_resp_body):
+                want_resp_body = r1[3]
+        except Exception:  # noqa: BLE001
+            pass
     if r1[3] != want_resp_body:
         return fail("response-body-altered", got=str(r1[3])[:80], got_len=len(r1[3]), want_len=len(want_resp_body))
     if reason is not None and r1[4] != reason:
